@@ -109,6 +109,10 @@ class Connection:
         ref = ref.line
       if isinstance(ref, str):
         found = gfa.line(ref)
+        if found is None:
+          # a placeholder segment will be created with this name
+          gfapy.Field._validate_gfa_field(ref, "segment_name_gfa1" \
+              if self.version == "gfa1" else "identifier_gfa2")
         if found is not None and found.record_type != "S" and \
             not isinstance(found, gfapy.line.Unknown):
           raise gfapy.NotUniqueError(
